@@ -508,7 +508,7 @@ def c13(ctx):
         ctx.stage("free-asan", "mutex_lin", "dbg-asan", [["--seed", str(ctx.seed * 100 + 90 + i), "--first", "0", "--cases", str(scaled(150000))] for i in range(4)],
                   timeout=7200, build_kwargs=libs)
     ctx.rule = ("rounds: a fresh mutex_db<uint64>, 2-8 keys sharing prefixes (20% of rounds with static ballast keys so the branching node crosses 4/16/48 children), "
-                "pre-populated, then 2-8 free-running std::threads x 2-6 operations {insert(unique value, 1 in 7 of length 0), remove, get, empty, scan / reverse scan / scan_from / scan_range over the whole key space, clear} released by a spin barrier, with "
+                "pre-populated, then 2-8 free-running std::threads x 2-6 operations {insert(unique value, 1 in 7 of length 0), remove, get, empty, scan / reverse scan / scan_from / scan_range over the whole key space, clear, the statistics accessors} released by a spin barrier, with "
                 "per-thread timing perturbation; stamps from one atomic counter around every call. Oracles: per-key linearizability (Wing-Gong) incl. a final "
                 "snapshot; owns_lock() == hit on every get; value bytes re-read under the held handle; hold-window rule (no other thread's operation called and "
                 "returned inside a hold); interposed pthread_mutex monitor (held count 0 after every call, 1 exactly after a hit) in the non-TSan build; ThreadSanitizer "
@@ -516,7 +516,7 @@ def c13(ctx):
                 "on one key or an operation overlapped another thread's hold window")
     ctx.assumptions = ["OS schedules with perturbation only (no hooks inside std::mutex), which is what the property quantifies over",
                        "x86: lock xadd stamps respect real time", "wall-clock is used only by the hang watchdog, a backstop for the interposition monitor"]
-    ctx.floors = [("rounds", 10000), ("overlapping_pairs", 10000), ("blocked_behind_hold", 1000), ("lock_monitor_checks", 10000), ("gets_hit", 1000), ("gets_miss", 1000)]
+    ctx.floors = [("rounds", 10000), ("overlapping_pairs", 10000), ("blocked_behind_hold", 1000), ("lock_monitor_checks", 10000), ("gets_hit", 1000), ("gets_miss", 1000), ("clears", 1000), ("statistics_calls", 1000)]
 
 
 # ------------------------------------------------------------------ setup
